@@ -260,8 +260,10 @@ def reconnect_with_request_while_connecting(suspends, cause):
     ts = [T(lenreq=True, name='a'), T(lenreq=True, connect_suspends=suspends, name='b')]
 
     async def provider():
-        for x in ts:
-            yield x
+        yield ts[0]
+        for _ in range(suspends):          # obtaining the next transport takes a while, too
+            await asyncio.sleep(0)
+        yield ts[1]
 
     class H(BaseRequestHandler):
         async def on_close(self, rsocket, exception=None):
@@ -282,8 +284,8 @@ def reconnect_with_request_while_connecting(suspends, cause):
         issued = 0
         for _ in range(30):
             loop.tick()
-            if not ts[1].connected and hasattr(c, '_send_queue') and c._next_transport is not None \
-                    and not c._next_transport.done() and issued < 2:
+            # while the next connection is being set up (provider or transport.connect() suspended)
+            if not ts[1].connected and hasattr(c, '_send_queue') and issued < 6 and (ts[0].closed or cause != 'eof'):
                 try:
                     loop.run(lambda: c.fire_and_forget(Payload(b'during-connect')))
                     issued += 1
